@@ -1,7 +1,7 @@
 #!/bin/sh
 # usage: run_all.sh [tier] [parallel]  — run every claimed check on the unchanged tree (refreshes evidence/*.json)
 T="${1:-quick}"; P="${2:-4}"
-cd /verif
+cd "$(dirname "$0")/.."
 /venv/bin/python tools/translate.py >/dev/null 2>&1
 python3 -c "import json;print('\n'.join(c['property_id'] for c in json.load(open('MANIFEST.json'))['checks']))" | \
   xargs -P "$P" -I{} sh -c "./check {} --tier $T 2>&1 | grep -v conda | grep -E 'VIOLATION|KNOWN|OK|FAIL|infrastructure'"
